@@ -47,15 +47,23 @@ def documents(ctx: common.Ctx, n: int, *, auto_claim: Optional[bool] = None):
     sd.set_load_factor(1000)
 
 
-def replay_history(text: str, auto_claim: bool, lf: int, seed: int, n_edits: int):
+def gen_edits(r: random.Random, f, n_edits: int, p_focus: float):
+    """The edit histories of C05/C06 (and their replays): with probability p_focus most edits of the history hit
+    one model (focused), otherwise every edit picks its model afresh. Yields (k, Edit or None) after applying."""
+    focus = edits.pick_focus(r, f) if r.random() < p_focus else None
+    only = edits.toggle_names(r, focus) if (focus is not None and r.random() < 0.6) else None
+    for k in range(n_edits):
+        on_focus = focus is not None and r.random() < 0.85
+        e = edits.random_edit(r, f, focus=focus if on_focus else None, only=only if on_focus else None)
+        yield k, e
+
+
+def replay_history(text: str, auto_claim: bool, lf: int, seed: int, n_edits: int, p_focus: float = 0.0):
     """Deterministic re-execution of a history: same seed -> same edits."""
     sd.set_load_factor(lf)
     f = gen_docs.parse_ok(text, auto_claim)
     r = random.Random(seed)
-    out = []
-    for _ in range(n_edits):
-        e = edits.random_edit(r, f)
-        out.append(repr(e))
+    out = [repr(e) for _, e in gen_edits(r, f, n_edits, p_focus)]
     sd.set_load_factor(1000)
     return f, out
 
@@ -63,7 +71,7 @@ def replay_history(text: str, auto_claim: bool, lf: int, seed: int, n_edits: int
 # ---- C05 -------------------------------------------------------------------------------------------
 def run_c05(ctx: common.Ctx):
     from autobean_refactor.models.internal import properties as props
-    for text, ac, lf, f in documents(ctx, ctx.scale(300, 3000)):
+    for text, ac, lf, f in documents(ctx, ctx.scale(900, 6000)):
         seed = ctx.rng.randrange(1 << 30)
         r = random.Random(seed)
         n_edits = ctx.rng.choice([2, 5, 10] if ctx.quick else [5, 10, 25])
@@ -74,8 +82,7 @@ def run_c05(ctx: common.Ctx):
             ctx.monitor_failure('C05:parsed-not-wf', f'freshly parsed document is not well-formed: {p0[0]}',
                                 {'text': text, 'auto_claim': ac})
             continue
-        for k in range(n_edits):
-            e = edits.random_edit(r, f)
+        for k, e in gen_edits(r, f, n_edits, 0.4):
             if e is None:
                 continue
             hist.append(repr(e))
@@ -87,7 +94,7 @@ def run_c05(ctx: common.Ctx):
             probs = treewalk.wf_problems(f)
             if probs:
                 ctx.monitor_failure('C05:not-wf-after-edit', f'after {hist[-1]}: {probs[0]}',
-                                    {'text': text, 'auto_claim': ac, 'lf': lf, 'edit_seed': seed, 'n_edits': k + 1,
+                                    {'text': text, 'auto_claim': ac, 'lf': lf, 'edit_seed': seed, 'n_edits': k + 1, 'p_focus': 0.4,
                                      'history': hist, 'problems': probs[:5]})
                 break
         # pop() returns a complete self-contained tree
@@ -134,14 +141,14 @@ def classify_c06(d: str, out: str) -> str:
 
 
 def run_c06(ctx: common.Ctx):
-    for text, ac, lf, f in documents(ctx, ctx.scale(250, 2500), auto_claim=True):
+    for text, ac, lf, f in documents(ctx, ctx.scale(500, 4000), auto_claim=True):
         seed = ctx.rng.randrange(1 << 30)
         r = random.Random(seed)
         n_edits = ctx.rng.choice([1, 3, 6] if ctx.quick else [3, 6, 15])
         hist = []
         ok_edits = 0
-        for k in range(n_edits):
-            e = edits.random_edit(r, f)
+        n_edits += 2
+        for k, e in gen_edits(r, f, n_edits, 0.5):
             if e is None:
                 continue
             hist.append(repr(e))
@@ -150,7 +157,7 @@ def run_c06(ctx: common.Ctx):
             ok_edits += 1
             out = treewalk.text_of(f)
             g = gen_docs.parse_ok(out, True)
-            w = {'text': text, 'lf': lf, 'edit_seed': seed, 'n_edits': k + 1, 'history': hist, 'printed': out}
+            w = {'text': text, 'lf': lf, 'edit_seed': seed, 'n_edits': k + 1, 'p_focus': 0.5, 'history': hist, 'printed': out}
             if g is None:
                 ctx.monitor_failure('C06:printed-text-rejected', f'after {hist[-1]} the printed document no longer parses', w)
                 break
@@ -183,12 +190,25 @@ def run_c11(ctx: common.Ctx):
             nodes = [(p, m) for p, m in treewalk.walk(f) if isinstance(m, base.RawTreeModel)]
             p, m = nodes[0] if pick == 0 else r.choice(nodes)
             w = {'text': text, 'auto_claim': ac, 'lf': lf, 'edit_seed': seed, 'pre_edits': pre, 'path': p}
+            # models may carry a non-default indent_by (assigned by the user or by from_value(indent_by=...))
+            if r.random() < 0.3:
+                holders = [x for _, x in treewalk.walk(m) if isinstance(x, base.RawTreeModel) and 'indent_by' in x.__dict__]
+                if holders:
+                    r.choice(holders).indent_by = r.choice(['  ', '\t', '      '])
             try:
                 c = copy.deepcopy(m)
             except Exception as x:
                 ctx.monitor_failure('C11:deepcopy-raised', f'deepcopy({p}) raised {type(x).__name__}: {x}', w)
                 continue
             ctx.count('copies')
+            sig_o = [(type(t).__name__, t.raw_text, getattr(t, 'claimed', None)) for t in m.token_store.iter(m.first_token, m.last_token)]
+            sig_c = [(type(t).__name__, t.raw_text, getattr(t, 'claimed', None)) for t in c.token_store]
+            if sig_o != sig_c:
+                ctx.monitor_failure('C11:copy-tokens-differ', f'deepcopy({p}): the copy\'s tokens (type, text, claimed) differ from the '
+                                    f'original span at {diff(sig_o, sig_c)}', w)
+            if treewalk.dump(c) != treewalk.dump(m):
+                ctx.monitor_failure('C11:copy-structure-differs', f'deepcopy({p}) differs structurally from the original at '
+                                    f'{diff(treewalk.dump(m), treewalk.dump(c))} (classes, fields, token texts, claimed flags, indent_by)', w)
             if not (c == m) or not (m == c):
                 ctx.monitor_failure('C11:copy-not-equal', f'deepcopy({p}) != original', w)
             if treewalk.text_of(c) != span_text(m):
@@ -258,6 +278,50 @@ def run_c20(ctx: common.Ctx):
                 ctx.monitor_failure('C20:asymmetric', f'{p} == {q} is {eq1} but the reverse is {eq2}', dict(w, a=p, b=q))
             if eq1 != same:
                 ctx.monitor_failure('C20:eq-vs-structure', f'{p} == {q} is {eq1} but same type/text/structure is {same}', dict(w, a=p, b=q))
+            ctx.count('pairs_compared')
+        # models of the same document that span the same tokens but differ in type (NumberExpr / NumberAddExpr /
+        # NumberMulExpr / Number ...) or in structure must be unequal; a model always equals itself
+        trees = [(p, m) for p, m in nf if isinstance(m, base.RawTreeModel)]
+        by_span = {}
+        for p, m in trees:
+            try:
+                by_span.setdefault((id(m.first_token), id(m.last_token)), []).append((p, m))
+            except Exception:
+                pass
+        groups = [g_ for g_ in by_span.values() if len(g_) > 1]
+        r.shuffle(groups)
+        for g_ in groups[:4]:
+            for i in range(len(g_)):
+                for j in range(len(g_)):
+                    (p1, a1), (p2, b1) = g_[i], g_[j]
+                    same = type(a1) is type(b1) and treewalk.dump(a1) == treewalk.dump(b1)
+                    if (a1 == b1) != same:
+                        ctx.monitor_failure('C20:same-span-different-model', f'{p1} ({type(a1).__name__}) == {p2} ({type(b1).__name__}) is {a1 == b1}, '
+                                            f'same type and structure is {same}', dict(w, a=p1, b=p2))
+                    ctx.count('pairs_compared')
+        # hash stays consistent with == for tokens across edits: hash, edit, compare with an equal fresh token
+        vtoks = [(p, t) for p, t in nf if isinstance(t, base.RawTokenModel) and edits.sample_for(type(t), r) is not None
+                 and hasattr(t, 'value') and not (hasattr(t, 'claimed') and not t.claimed)]
+        for p, t in vtoks[:0] + ([r.choice(vtoks)] if vtoks else []):
+            t_in_g = [y for q_, y in ng if q_ == p]
+            h0 = hash(t)
+            s_ = edits.sample_for(type(t), r)
+            try:
+                t.value = s_[1]
+                fresh = type(t).from_raw_text(t.raw_text)
+            except Exception:
+                continue
+            if t == fresh and hash(t) != hash(fresh):
+                ctx.monitor_failure('C20:hash-stale-after-edit', f'{p}: after value = {s_[1]!r} the token equals a fresh token with the same '
+                                    f'text but hashes differently', dict(w, path=p, value=repr(s_[1])))
+            if not (t == fresh):
+                ctx.monitor_failure('C20:token-unequal-same-text', f'{p}: token with text {t.raw_text!r} != fresh token of the same type and text', dict(w, path=p))
+            # restore so the single-edit step below still starts from twins
+            if t_in_g:
+                try:
+                    t_in_g[0].value = s_[1]
+                except Exception:
+                    pass
             ctx.count('pairs_compared')
         # a single edit makes the document unequal to its untouched twin
         hist = []
@@ -341,7 +405,7 @@ def _arg(r, cls_name: str, pname: str, full: bool):
         return r.choice([None, 'STRICT', 'a "b"'])
     if pname in ('number', 'number_per', 'number_total'):
         if cls_name in ('Posting', 'UnitPrice', 'TotalPrice', 'CostSpec', 'CompoundAmount'):
-            return r.choice([None, D('1'), D('-2.50'), D('1000.25')])
+            return r.choice([None, D('1'), D('-2.50'), D('1000.25'), D('0'), D('0.00')])
         return r.choice([D('0'), D('12.5'), D('-3'), D('1000000')])
     if pname == 'tolerance':
         return r.choice([None, D('0.01')])
@@ -383,12 +447,17 @@ def _arg(r, cls_name: str, pname: str, full: bool):
     if pname == 'values':
         pool = [lambda: 's', lambda: datetime.date(2020, 1, 2), lambda: True, lambda: D('1'), lambda: D('-2'),
                 lambda: D('3'), lambda: models.Amount.from_value(D('-4'), 'USD'),
-                lambda: models.Account.from_value('Assets:X'), lambda: D('-5')]
+                lambda: models.Account.from_value('Assets:X'), lambda: D('-5'),
+                lambda: models.NumberExpr.from_value(D('-2')) + 5,            # signed, two additive terms
+                lambda: models.NumberExpr.from_value(D('-2')) * 3 - 1,
+                lambda: models.Amount.from_children(models.NumberExpr.from_value(D('-2')) + 5, models.Currency.from_value('USD')),
+                lambda: +models.NumberExpr.from_value(D('4')) if hasattr(models.NumberExpr, '__pos__') else D('4'),
+                lambda: D('0')]
         return [r.choice(pool)() for _ in range(r.choice([0, 1, 2, 4]))]
     if pname == 'amount':
         return models.Amount.from_value(r.choice([D('1'), D('-2.5')]), E.s_currency(r))
     if pname == 'cost':
-        return r.choice([None, models.CostSpec.from_value(D('2'), None, 'USD'),
+        return r.choice([None, models.CostSpec.from_value(D('2'), None, 'USD'), models.CostSpec.from_value(D('0'), None, 'USD'),
                          models.CostSpec.from_value(None, D('5'), 'EUR', date=datetime.date(2020, 1, 1), label='l', merge=True),
                          models.CostSpec.from_value(None, None, None)])
     if pname == 'price':
@@ -442,6 +511,27 @@ def run_c15(ctx: common.Ctx):
             if probs:
                 ctx.monitor_failure('C15:constructed-not-wf', f'{cls.__name__}.from_value(...) is not well-formed: {probs[0]}', w)
                 continue
+            # the constructed model reads back the arguments it was built from (plain-valued ones)
+            import datetime as _dt
+            import decimal as _dec
+            for an, av in kwargs.items():
+                if an in ('meta', 'values', 'postings', 'directives', 'amount', 'cost', 'price', 'indent_by') or not hasattr(m, an):
+                    continue
+                exp = av
+                if cls.__name__ == 'Transaction' and an == 'narration' and av is None and kwargs.get('payee') is not None:
+                    exp = ''
+                try:
+                    got = getattr(m, an)
+                except Exception:
+                    continue
+                if isinstance(exp, list) and all(isinstance(x, str) for x in exp):
+                    got = list(got)
+                elif not (exp is None or isinstance(exp, (str, bool, _dec.Decimal, _dt.date))):
+                    continue
+                if got != exp or type(got) is not type(exp):
+                    ctx.monitor_failure('C15:field-differs-from-argument', f'{cls.__name__}.from_value({an}={exp!r}): the model reads '
+                                        f'{an} = {got!r}', w)
+                    break
             text = treewalk.text_of(m)
             try:
                 g = parser.parse(text, cls)
@@ -479,3 +569,87 @@ def run_c15(ctx: common.Ctx):
         if d:
             ctx.monitor_failure('C15:reparse-content-differs', f'File.from_value(...): re-parsed content differs at {d}', w)
         ctx.case({'class': 'File', 'n': len(ds)}, nontrivial=True)
+
+
+COST_FORMS = ['{}', '{{}}', '{1}', '{{1}}', '{USD}', '{{USD}}', '{1 USD}', '{{1 USD}}', '{1 # 2 USD}', '{{1 # 2 USD}}',
+              '{# 2 USD}', '{{# 2 USD}}', '{1 # USD}', '{{12.34 # USD}}', '{2000-01-01, 1 USD}', '{"lbl", *, 1 USD}',
+              '{{1 USD, 2000-01-01, "l"}}', '{*}', '{1 + 2 USD}']
+
+
+def run_c05_costs(ctx: common.Ctx):
+    """Directed: every concrete cost form x random sequences of the dependent setters; the tree must stay
+    well-formed (the cost node, its braces and components are replaced/re-typed by the setters)."""
+    import datetime
+    from decimal import Decimal as D
+    from autobean_refactor import models
+    choices = {'number_per': [None, D('2.5'), D('0')], 'number_total': [None, D('7'), D('0')],
+               'currency': [None, 'CAD', 'EUR'], 'date': [None, datetime.date(2020, 2, 3)],
+               'label': [None, 'x', ''], 'merge': [True, False]}
+    plans = [(form, [(n, v)]) for form in COST_FORMS for n, vs in choices.items() for v in vs]     # every single assignment
+    for _ in range(ctx.scale(150, 2000)):                                                         # random longer sequences
+        r = random.Random(ctx.rng.randrange(1 << 30))
+        plans.append((r.choice(COST_FORMS), [(n, r.choice(choices[n])) for n in
+                                             (r.choice(list(choices)) for _ in range(r.choice([2, 3, 5])))]))
+    for form, plan in plans:
+        text = f'2000-01-01 *\n    Assets:Foo  100.00 GBP {form}\n    Assets:Bar\n'
+        f = gen_docs.parse_ok(text, True)
+        if f is None:
+            continue
+        cost = f.raw_directives[0].raw_postings[0].cost
+        hist = []
+        for name, v in plan:
+            hist.append(f'cost.{name} = {v!r}')
+            try:
+                setattr(cost, name, v)
+            except ValueError:
+                hist[-1] += ' -> ValueError'
+                continue
+            probs = treewalk.wf_problems(f)
+            if probs:
+                ctx.monitor_failure('C05:not-wf-after-edit', f'cost {form}: after {hist[-1]}: {probs[0]}',
+                                    {'text': text, 'history': hist})
+                break
+        ctx.case({'cost_form': form, 'history': hist}, nontrivial=bool(hist))
+
+
+def run_c15_comment_layouts(ctx: common.Ctx):
+    """Directed: constructed models whose comments end up adjacent in the printed text. The grammar lexes
+    adjacent comment lines of one indentation as ONE block comment and attribution is positional, so these
+    constructions do not read back with the same comment fields (recorded findings; any other outcome than the
+    recorded one is reported under a different signature)."""
+    from decimal import Decimal as D
+    import datetime
+    from autobean_refactor import models
+    from autobean_refactor import parser as parser_lib
+    parser = parser_lib.Parser()
+    # 1. trailing comment of posting 1 directly above leading comment of posting 2
+    p1 = models.Posting.from_value('Assets:A', D(1), 'USD', trailing_comment='a')
+    p2 = models.Posting.from_value('Assets:B', None, None, leading_comment='b')
+    t = models.Transaction.from_value(datetime.date(2000, 1, 1), None, 'n', [p1, p2])
+    text = treewalk.text_of(t)
+    try:
+        g = parser.parse(text, models.Transaction)
+        got = [(p.leading_comment, p.trailing_comment) for p in g.postings]
+    except Exception as e:
+        got = f'rejected: {type(e).__name__}'
+    exp = [(None, 'a'), ('b', None)]
+    ctx.case({'layout': 'posting.trailing + next posting.leading', 'printed': text}, nontrivial=True)
+    if got != exp:
+        sig = 'C15:adjacent-comments-merge' if got == [(None, None), ('a\nb', None)] else 'C15:comment-fields-differ'
+        ctx.monitor_failure(sig, f'constructed postings with comments {exp} print {text!r} and read back as {got}', {'printed': text})
+    # 2. trailing comment of the last meta item of a posting
+    mi = models.MetaItem.from_value('kk', D(1), indent='        ', trailing_comment='x')
+    p = models.Posting.from_children(models.Account.from_value('Assets:A'), None, None, meta=[mi], indent=models.Indent.from_value('    '))
+    t = models.Transaction.from_value(datetime.date(2000, 1, 1), None, 'n', [p])
+    text = treewalk.text_of(t)
+    try:
+        g = parser.parse(text, models.Transaction)
+        gp = g.postings[0]
+        got = (gp.trailing_comment, gp.raw_meta[0].trailing_comment)
+    except Exception as e:
+        got = f'rejected: {type(e).__name__}'
+    ctx.case({'layout': 'trailing comment of a posting\'s last meta item', 'printed': text}, nontrivial=True)
+    if got != (None, 'x'):
+        sig = 'C15:nested-trailing-comment-claimed-by-parent' if got == ('x', None) else 'C15:comment-fields-differ'
+        ctx.monitor_failure(sig, f'meta item built with trailing_comment="x" inside a posting prints {text!r} and reads back as '
+                            f'(posting.trailing, meta.trailing) = {got}', {'printed': text})
